@@ -73,8 +73,9 @@ def match_known(known, key):
     for e in known:
         if e.get("status") != "known":
             continue
-        if all(key.get(k) == v for k, v in e.get("key", {}).items()):
-            return e
+        for want in ([e["key"]] if "key" in e else []) + list(e.get("keys", [])):
+            if all(key.get(k) == v for k, v in want.items()):
+                return e
     return None
 
 
